@@ -3,7 +3,7 @@
    "Stall": every model function is total (structural recursion, no fuel); the amount of work per
    line is bounded by the number of events, which a tiny sampling rate can make huge - that is the
    known finding sampling-rate-amplification, not excluded by any theorem here. *)
-From SE Require Import Spec.PipelineSpec Spec.LineSpec Proofs.PipelineProofs Proofs.LineSyntaxProofs.
+From SE Require Import Spec.PipelineSpec Spec.LineSpec Spec.HostileSpec Proofs.PipelineProofs Proofs.LineSyntaxProofs Proofs.HostileProofs.
 
 (* no byte string makes the line parser panic, under any flag set *)
 Theorem C02_parser_no_panic : stmt_l2e_no_panic.
@@ -16,6 +16,39 @@ Theorem C02_pipeline_no_panic : forall pf uni_word re_match heur_bt re_compiles 
   stmt_pipeline_no_panic pf uni_word re_match heur_bt re_compiles CS c_get c_add c_reset builtins.
 Proof. exact pipeline_no_panic_ok. Qed.
 Print Assumptions C02_pipeline_no_panic.
+
+(* "well-formed lines that follow a malformed or hostile line (in the same packet, the same
+   connection or later) are still processed": whatever bytes precede a newline in a datagram, the
+   piece after it is framed as a line of its own ... *)
+Theorem C02_line_after_hostile_bytes_datagram : stmt_hostile_prefix_datagram.
+Proof. exact hostile_prefix_datagram_ok. Qed.
+Print Assumptions C02_line_after_hostile_bytes_datagram.
+
+(* ... and on a TCP connection too, unless a raw line of the prefix reaches the 4096-byte buffer
+   (which closes that connection and no other: C18_tcp_too_long) *)
+Theorem C02_line_after_hostile_bytes_tcp : stmt_hostile_prefix_tcp.
+Proof. exact hostile_prefix_tcp_ok. Qed.
+Print Assumptions C02_line_after_hostile_bytes_tcp.
+
+(* its events are those it yields on its own bytes, appended to whatever the prefix produced *)
+Theorem C02_events_after_hostile_bytes : forall pf, stmt_hostile_prefix_events pf.
+Proof. exact hostile_prefix_events_ok. Qed.
+Print Assumptions C02_events_after_hostile_bytes.
+
+(* and the exporter handles it exactly as if it had arrived alone, from whatever state the hostile
+   prefix left behind - for every state, configuration, cache behaviour and flag set.  Together with
+   C02_pipeline_no_panic (that state is never "crashed") and C03 / C08 (what the prefix can have
+   done to the registry is confined to the names it claimed) this is the whole clause. *)
+Theorem C02_good_line_handled_as_if_alone : forall pf uni_word re_match CS c_get c_add,
+  stmt_hostile_then_good pf uni_word re_match CS c_get c_add.
+Proof. exact hostile_then_good_ok. Qed.
+Print Assumptions C02_good_line_handled_as_if_alone.
+
+(* later packets are handled by the same function from the state the earlier ones left *)
+Theorem C02_later_packets : forall pf uni_word re_match CS c_get c_add,
+  stmt_packets_sequential pf uni_word re_match CS c_get c_add.
+Proof. exact packets_sequential_ok. Qed.
+Print Assumptions C02_later_packets.
 
 (* lines are independent: a line is a pure function of its own bytes (line_to_events takes no
    state), so a hostile line cannot affect how a later line is parsed; what it can do to the
